@@ -30,6 +30,25 @@ func (g *Gen) genCodec(n int) {
 	for _, v := range []int64{math.MaxInt32, math.MaxInt32 + 1, math.MinInt32, math.MinInt32 - 1, math.MaxInt64, math.MinInt64, 0, -1} {
 		g.emit("codec encv %d", v)
 	}
+	// the 32-bit reader on the encodings of values at and around the int32 limits (and a sample of others)
+	zz := func(v int64) []byte {
+		u := uint64(v<<1) ^ uint64(v>>63)
+		var b []byte
+		for i := 0; i < 8 && u >= 0x80; i++ {
+			b = append(b, byte(u)|0x80)
+			u >>= 7
+		}
+		return append(b, byte(u))
+	}
+	for _, base := range []int64{math.MaxInt32, math.MinInt32, 0, 1 << 20, -(1 << 20), math.MaxInt64, math.MinInt64} {
+		for d := int64(-2); d <= 2; d++ {
+			if (base == math.MaxInt64 && d > 0) || (base == math.MinInt64 && d < 0) {
+				continue
+			}
+			g.emit("codec decv32 %s", showBytes(zz(base+d)))
+			g.emit("codec decv32 %s", showBytes(append(zz(base+d), 0x81, 0x00)))
+		}
+	}
 	// --- floats: all classes
 	var fs []uint64
 	special := []float64{0, 1, 2, 3, 0.5, 0.25, 1.5, 1e-300, 1e300, math.MaxFloat64, math.SmallestNonzeroFloat64,
